@@ -7,6 +7,7 @@ import warnings
 
 from framework import Issue
 from world import Susp, UserExc, asyncstdlib
+import fam_cp_descr
 
 RULE = (
     "concurrent cases: op sequences over {spawn i (attribute access, the await happens later), respawn t (await the same "
@@ -419,12 +420,16 @@ def _functools_history(case):
 
 
 def observe(case):
+    if case["kind"] == "descr":
+        return fam_cp_descr.observe(case)
     if case["kind"] == "seq":
         return _observe_seq(case)
     return _observe_conc(case)
 
 
 def model_request(case):
+    if case["kind"] == "descr":
+        return None     # oracle only: the per-instance slot is a primitive of the Lean machine
     if case.get("handoff"):
         # a lock whose __aexit__ suspends AFTER releasing: Machines/CachedPropertyHandoff.lean (two-phase release)
         return {"m": "cachedpropertyhandoff", "mode": case["kind"], "lock": case["lock"] == "lock", "susp": case["susp"],
@@ -459,6 +464,8 @@ def judge(case, obs, model):
     issues = []
     for tag, detail in obs["viol"]:
         issues.append(Issue("oracle", detail, tag))
+    if case["kind"] == "descr":
+        return issues
     if case["kind"] == "seq":
         if obs["std"] is not None:
             mine = [o for o, op in zip(obs["impl"], case["ops"]) if op[0] == "await"]
@@ -502,6 +509,8 @@ def judge(case, obs, model):
 
 def features(case, obs):
     f = [case["kind"], "lock=" + str(case["lock"])]
+    if case["kind"] == "descr":
+        return f + ["family=descr", "scenario=" + case["scenario"]]
     if case["kind"] == "seq":
         f.append("ops=%d" % len(case["ops"]))
         f += sorted({"op=" + op[0] for op in case["ops"]})
@@ -524,6 +533,8 @@ def features(case, obs):
 
 
 def nontrivial(case, obs):
+    if case["kind"] == "descr":
+        return True
     if case["kind"] == "seq":
         return obs["nruns"] > 0 and any(o[0] in ("ret", "raised") for o in obs["impl"])
     return obs["nruns"] > 0 and any(r is not None for r in obs["results"])
@@ -649,6 +660,7 @@ def _random_seq(rng):
 def cases(tier, rng):
     quick = tier == "quick"
     modes = ["lock", "none"]
+    yield from fam_cp_descr.cases()
     yield from _seq_cases(4 if quick else 5, ["lock", "none", "nullctx"])
     yield from _functools_cases(6 if quick else 8)
     # every schedule of n awaiters
